@@ -932,6 +932,39 @@ class Pass2(CompilePass):
             raise CompileError(EC.TYPE_MISMATCH,
                                node=node.command_string)
 
+    def _check_numeric_operands(self, *operands):
+        for operand in operands:
+            if operand is not None and not operand.type.is_numeric:
+                raise CompileError(EC.TYPE_MISMATCH, node=operand)
+
+    def _check_string_operand(self, operand):
+        if operand.type != Type.STRING:
+            raise CompileError(EC.TYPE_MISMATCH, node=operand)
+
+    def process_color_pre(self, node):
+        self._check_numeric_operands(
+            node.foreground, node.background, node.border)
+
+    def process_def_seg_pre(self, node):
+        self._check_numeric_operands(node.segment)
+
+    def process_sound_pre(self, node):
+        self._check_numeric_operands(node.frequency, node.duration)
+
+    def process_randomize_pre(self, node):
+        self._check_numeric_operands(node.seed)
+
+    def process_bload_pre(self, node):
+        self._check_string_operand(node.filespec)
+        self._check_numeric_operands(node.offset)
+
+    def process_bsave_pre(self, node):
+        self._check_string_operand(node.filespec)
+        self._check_numeric_operands(node.offset, node.length)
+
+    def process_kill_pre(self, node):
+        self._check_string_operand(node.filespec)
+
 
 class Pass3(CompilePass):
     # This pass does the following:
